@@ -436,6 +436,8 @@ def _gen_provenance(ctx, fn: FunctionInfo, ng: ast.AST, use: ast.AST, depth: int
                                 srcs.add(A.unparse(q.value))
                             if isinstance(q, ast.Call) and isinstance(q.func, ast.Attribute) and A.unparse(q.func.value) == it.id and q.func.attr in ("append", "extend") and q.args:
                                 srcs.add(A.unparse(q.args[0]))
+                            if isinstance(q, ast.AugAssign) and isinstance(q.op, ast.Add) and isinstance(q.target, ast.Name) and q.target.id == it.id:
+                                srcs.add(A.unparse(q.value))
                     else:
                         srcs.add(A.unparse(it))
                     blob = " ".join(sorted(srcs))
@@ -481,9 +483,21 @@ def _gen_provenance(ctx, fn: FunctionInfo, ng: ast.AST, use: ast.AST, depth: int
                                 if isinstance(par_, ast.Assign) and isinstance(par_.targets[0], ast.Name):
                                     mvar = par_.targets[0].id
                                 if mvar and kind_g and idx_g:
-                                    def groups_of(e_):
-                                        return {c.args[0].value for c in ast.walk(e_) if isinstance(c, ast.Call) and isinstance(c.func, ast.Attribute) and c.func.attr == "group" and A.unparse(c.func.value) == mvar and c.args and isinstance(c.args[0], ast.Constant)}
+                                    def _is_group(c):
+                                        return isinstance(c, ast.Call) and isinstance(c.func, ast.Attribute) and c.func.attr == "group" and A.unparse(c.func.value) == mvar and c.args and isinstance(c.args[0], ast.Constant)
+
+                                    # locals that merely name one group (`kind_a = m.group(1)`; the unpacked form
+                                    # `a, b, c, d = m.groups()` is read as four of these)
+                                    alias_ = {}
                                     for st_ in A.walk_no_nested(ast.Module(z.stmt.body, [])):
+                                        if isinstance(st_, ast.Assign) and len(st_.targets) == 1 and isinstance(st_.targets[0], ast.Name) and _is_group(st_.value):
+                                            alias_[st_.targets[0].id] = st_.value.args[0].value
+
+                                    def groups_of(e_):
+                                        return {c.args[0].value for c in ast.walk(e_) if _is_group(c)} | {alias_[n_.id] for n_ in ast.walk(e_) if isinstance(n_, ast.Name) and n_.id in alias_}
+                                    for st_ in A.walk_no_nested(ast.Module(z.stmt.body, [])):
+                                        if isinstance(st_, ast.Assign) and isinstance(st_.targets[0], ast.Name) and st_.targets[0].id in alias_ and _is_group(st_.value):
+                                            continue
                                         if isinstance(st_, ast.Assign) and isinstance(st_.targets[0], ast.Name) and groups_of(st_.value):
                                             gs_ = groups_of(st_.value)
                                             ors_ = [b for b in ast.walk(st_.value) if isinstance(b, ast.BoolOp)]
